@@ -105,6 +105,7 @@ let event_of_string (s : string) : int * event =
 (* ---------- script ---------- *)
 type sop =
   | SInit of int | SNew of bool | SFree | SApi of op | SSave | SRestore
+  | SReent of int * raction     (* callback function #id performs this call when invoked *)
 
 let hex_bytes tok =
   if tok = "-" then [] else
@@ -130,6 +131,9 @@ let parse_line (line : string) : int * sop =
   | [k; "G"; t; v] -> (int_of_string k, SApi (OSetProg (text_of_int (int_of_string t), v <> "0")))
   | [k; "U"; tok] -> (int_of_string k, SApi (OSetUD (d tok)))
   | [k; "R"; f; id] -> (int_of_string k, SApi (ORegister (field_of_int (int_of_string f), z_of_int ((int_of_string id) land 3))))
+  | [k; "Y"; id; "R"; f; nid] ->
+    (int_of_string k, SReent (int_of_string id, RReg (field_of_int (int_of_string f), z_of_int ((int_of_string nid) land 3))))
+  | [k; "Y"; id; "U"; tok] -> (int_of_string k, SReent (int_of_string id, RSetUD (d tok)))
   | k :: "V" :: _ -> (int_of_string k, SSave)
   | k :: "W" :: _ -> (int_of_string k, SRestore)
   | _ -> failwith ("bad script line: " ^ line)
@@ -137,9 +141,11 @@ let parse_line (line : string) : int * sop =
 (* ---------- model instances ---------- *)
 let ninst = 8
 type minst = { mutable st : state option; mutable hist : op list (* most recent first *);
-               mutable saved : (state * op list) option }
+               mutable saved : (state * op list) option;
+               mutable rs : (z * raction list) list (* re-entrant scripts per callback id *) }
 
-let fresh_insts () = Array.init ninst (fun _ -> { st = None; hist = []; saved = None })
+let fresh_insts () = Array.init ninst (fun _ -> { st = None; hist = []; saved = None; rs = [] })
+let reent_step : (rtab -> state -> op -> state * event list) ref = ref step_reent_u
 
 (* executes one script op on the model; returns (ret, events as (inst, event)) *)
 let model_exec (stepf : state -> op -> state * event list) (insts : minst array) (k : int) (o : sop)
@@ -152,11 +158,15 @@ let model_exec (stepf : state -> op -> state * event list) (insts : minst array)
   | SFree -> m.st <- None; m.hist <- []; (0, [])
   | SSave -> (match m.st with Some s -> m.saved <- Some (s, m.hist) | None -> ()); (0, [])
   | SRestore -> (match m.saved with Some (s, h) -> m.st <- Some s; m.hist <- h | None -> ()); (0, [])
+  | SReent (id, a) ->
+    let zid = z_of_int id in
+    let old = (try List.assoc zid m.rs with Not_found -> []) in
+    m.rs <- (zid, old @ [a]) :: List.remove_assoc zid m.rs; (0, [])
   | SApi op ->
     (match m.st with
      | None -> failwith "script applies an op to a NULL instance"
      | Some s ->
-       let (s', evs) = stepf s op in
+       let (s', evs) = if m.rs = [] then stepf s op else !reent_step (rtab_of m.rs) s op in
        m.st <- Some s';
        m.hist <- op :: m.hist;
        let ret = match op with OParseString str -> b2i (parse_string_result str) | _ -> 0 in
@@ -394,7 +404,7 @@ let check_mode flavor stepf prop script impl =
   close_in ic; close_in it
 
 let main () =
-  let stepf fl = if fl = "n" then step_n else step_u in
+  let stepf fl = (reent_step := (if fl = "n" then step_reent_n else step_reent_u)); if fl = "n" then step_n else step_u in
   match Array.to_list Sys.argv with
   | [_; "run"; fl; script] -> run_mode (stepf fl) script
   | [_; "check"; fl; prop; script; impl] -> check_mode fl (stepf fl) prop script impl
